@@ -107,3 +107,46 @@ func vrtHarness_C01_tdc() {
 		}
 	}
 }
+
+// A query is abandoned (context cancelled after it was written) and the very next query
+// follows on the same connection - no other query in between.  The reply to the abandoned
+// query arrives late, before the reply to the new one.  The new caller gets the reply to
+// its own question: the late reply finds no waiter, whatever value the wire-ID counter had.
+func vrtHarness_C01_tdcCancel() {
+	stream := vrtChoice(2) == 1
+	conn := &vrtConn{stream: stream}
+	dc := NewDnsConn(TraditionalDnsConnOpts{WithLengthHeader: stream, MaxConcurrentQuery: 8}, conn)
+	vrtSetCounter(&dc.nextQid, vrtU16(), vrtChoice(2) == 1)
+	ids := [2]uint16{vrtU16(), vrtU16()}
+	ctxX, cancelX := context.WithCancel(context.Background())
+	xDone := make(chan error, 1)
+	go func() {
+		ex, _ := dc.ReserveNewQuery()
+		if ex == nil {
+			xDone <- ErrTDCClosed
+			return
+		}
+		_, err := ex.ExchangeReserved(ctxX, vrtWire(ids[0], 100))
+		xDone <- err
+	}()
+	vrtAwait(func() bool { return len(conn.frames) > 0 }, func() {})
+	cancelX()
+	vrtAssert("the abandoned call ends with its context's error", <-xDone != nil)
+	go func() { // the server: the late reply to the abandoned query, then the reply to the new one
+		vrtDaemon()
+		vrtAwait(func() bool { return len(conn.frames) > 1 }, func() {
+			conn.serverSend(conn.frames[0])
+			conn.serverSend(conn.frames[1])
+		})
+	}()
+	ctx, cancel := context.WithTimeout(context.Background(), 300*time.Millisecond)
+	defer cancel()
+	ex, _ := dc.ReserveNewQuery()
+	vrtAssume(ex != nil)
+	r, err := ex.ExchangeReserved(ctx, vrtWire(ids[1], 101))
+	vrtCover("second caller done", true)
+	if err == nil {
+		vrtCover("second caller got a reply", true)
+		vrtAssert("a successful call never returns the late reply of an abandoned query", vrtAnd(len(*r) == 14, vrtWireTag(*r) == 101, vrtWireID(*r) == ids[1]))
+	}
+}
